@@ -40,8 +40,9 @@ func (s *Server) Definition(ctx context.Context, params *protocol.DefinitionPara
 		return nil, nil
 	}
 
-	resolved := s.getWorkspaceResolved(params.TextDocument.URI)
-	currentPath := uriToPath(params.TextDocument.URI)
+	// currentPath names the file the tree's Primary journal belongs to: with a workspace
+	// that is the root journal, not necessarily the requesting document
+	resolved, currentPath := s.getWorkspaceResolvedWithPath(params.TextDocument.URI)
 
 	location := findDefinitionLocation(target, resolved, currentPath, journal)
 	if location == nil {
